@@ -143,6 +143,43 @@ NOTES = {
                "closure panics with no clone of the Weak outstanding: side record leaks"),
     "C14-M4": ("new_cyclic: initial weak-count increment written inside debug_assert!",
                "release builds: closure saves a clone outside the value: side record freed while the clone exists"),
+    # ---- round 3 (fresh authors; told only what had been submitted for their own property) ----
+    "C01-M5": ("Cc::drop: remove_from_list moved from before drop_in_place to just before cc_dealloc (same edit as C03-M1)",
+               "buffered object, last handle dropped, its destructor-side code (untraced field's Drop, cleaning action) starts a collection; a Cc field points to an object the program also holds"),
+    "C01-M6": ("new_cyclic: the re-increment of the strong counter after the closure written inside debug_assert!",
+               "release builds, weak-ptrs: the handle returned by new_cyclic is not counted; a clone dropped while another handle lives, or a cycle through the object collected while held"),
+    "C02-M5": ("CcBox::trace counting arm: increment_tracing_counter() for still-buffered objects written inside debug_assert!",
+               "release builds: >= 2 members of one unreachable cycle in the buffer, the one popped first pointing to one still buffered: whole component classed as roots and never reclaimed"),
+    "C02-M6": ("Cc::drop skips buffering (decrement only) while the collector's drop phase runs (is_dropping_list)",
+               "a cycle owned only through an untraced Cc field / action capture, already examined (not buffered), whose owner is itself cyclic garbage: last outside handle released inside deallocate_list, never reclaimed"),
+    "C03-M5": ("trace_counting: the unwinding guard that resets tracing counters of still-buffered objects removed (reverts the repair of F1)",
+               "Trace panics during counting after tracing a Cc to a still-buffered object; later panic-free collection frees it while owned; second drop + free when the owner goes"),
+    "C03-M6": ("increment_counter compares the raw cell with MAX (same edit as C01-M2 / C16-M2)",
+               "finalized flag set + > 16382 Ccs, release build"),
+    "C04-M5": ("CounterMarker::reset_tracing_counter stores NON_MARKED (also wipes the 2-bit mark)",
+               "two buffered objects, counting phase unwinds on a caught Trace panic while the other is still buffered; its last Cc dropped (or mark_alive / clone): freed while linked in POSSIBLE_CYCLES"),
+    "C04-M6": ("Cc::drop: the finalizing guard replaced by hand-written save / set / reset (skipped on the resurrection early return and on unwinding)",
+               "a finalizer run by a plain last-owner drop resurrects its object (weak self-upgrade) or panics: finalizing stays true; later objects are born finalized, try_unwrap refuses"),
+    "C05-M5": ("increment_counter compares the raw cell with MAX (same edit as C01-M2)",
+               "object with the finalized flag set and >= 16383 Ccs; release build shows the finalizer call"),
+    "C05-M6": ("__collect: has_finalized assigned per object instead of accumulated (same edit as C01-M3)",
+               "collector path, mixed set whose last visited member is already finalized, a finalizer that changes the graph"),
+    "C07-M5": ("finalize_inner: set_finalized(true) moved after the finalizer call (same edit as C05-M2, collector path only)",
+               "a finalizer panics inside a collection (caught); the set becomes collectable again: finalized a second time"),
+    "C07-M6": ("new_cyclic PanicGuard no longer calls drop_metadata() (same edit as C14-M2)",
+               "closure saves a clone of the Weak and panics; later query of the saved Weak after the freed block was reused / poisoned"),
+    "C08-M5": ("Cc::drop: cc_dealloc moved into a guard created before drop_in_place (drop_metadata stays after it)",
+               "a destructor panics under a plain Cc::drop while a Weak survives: box freed, side record still says accessible; later strong_count / upgrade read freed memory"),
+    "C08-M6": ("new_cyclic: decrement / re-increment of the strong counter around the closure both written inside debug_assert!",
+               "release builds: while the closure runs the uninitialised box has strong count 1: strong_count() == 1, upgrade() returns Some"),
+    "C09-M5": ("Weak::drop: the weak-counter decrement written inside debug_assert!",
+               "release builds: weak_count never goes down, every side record leaks"),
+    "C09-M6": ("Weak::clone builds the new Weak before incrementing the counter",
+               "32767 Weaks, one more clone refused (panic caught): the uncounted Weak's drop decrements: count too low, side record freed one Weak early"),
+    "C10-M5": ("WeakCounterMarker::increment_counter compares the raw cell (accessible bit included) with MAX",
+               "> 32767 live Cleanables on one Cleaner, release build: the cell wraps and clears the accessible flag: clean() does nothing, metadata freed early"),
+    "C10-M6": ("Weak::upgrade builds the Cc before incrementing (same edit as C04-M2 / C16-M1)",
+               "a cleaning action upgrades a Weak to an owner already at 16382 strong handles"),
 }
 
 
